@@ -240,6 +240,9 @@ void profile_resolve(Gen &g) {
 	p.ops.push_back(direct());
 	for (int k = 0; k < rounds; k++) {
 		int ne = r.chance(2, 3) ? 1 : r.range(2, 3);
+		// the one edit after which a solution may legitimately survive is a row deletion (basic rows only): make it the first thing after a
+		// solve often enough that every kind of row (ranged at either end, equality, basic, non-basic) gets deleted with a live cache
+		if (r.chance(1, 5)) { Op d = g.mk(0, "edit"); g.seti(d, "o", 0); g.set(d, "what", std::vector<std::string>{"delrow", "delnamedrow", "delrows", "delsetrows"}[r.below(4)]); g.seti(d, "i", r.below(30)); g.set(d, "list", std::to_string(r.below(30))); p.ops.push_back(d); }
 		for (int e = 0; e < ne; e++) { Op ed = g.gen_edit(0); g.seti(ed, "o", 0);
 			if (r.chance(1, 2)) { static const char *w[] = {"chgcoef", "chgcoef", "chgcoef", "chgobj", "chgrhs", "chgbound", "chgsense", "chgrange"}; Op e2 = g.mk(0, "edit"); g.seti(e2, "o", 0); std::string what = w[r.below(8)]; g.set(e2, "what", what);
 				g.seti(e2, "i", r.below(30)); g.seti(e2, "j", r.below(30)); g.set(e2, "v", r.chance(1, 6) ? "0" : what == "chgrange" ? g.pos() : g.num()); g.set(e2, "lu", std::string(1, "LUB"[r.below(3)])); g.set(e2, "sense", std::string(1, "LGER"[r.below(4)])); ed = e2; }
